@@ -165,9 +165,13 @@ def scen_sdd(env, cfg):
         arg = T.electrical_signal(list(s), list(w) if noise else None)
     else:
         arg = env.arr(tot)
+    snaps = [(arg.signal, env.snap(arg.signal)), (arg.noise, env.snap(arg.noise))] if form == 'es' else [(arg, env.snap(arg))]
     out = P.SDD(arg, M)
     d = env.items(out.data)
     env.check('one decision per slot', len(d) == M * nsym)
+    env.check('the decoder leaves its input (signal and noise) untouched', env.And([env.untouched(a, sn) for a, sn in snaps if a is not None]))
+    again = P.SDD(arg, M)
+    env.check('decoding the same object again gives the same codeword', env.eqs(again.data, d))
     sums = [sum(tot[i * sps:(i + 1) * sps]) for i in range(M * nsym)]
     conds = []
     for sy in range(nsym):
